@@ -62,7 +62,7 @@ def main():
                      'technique': 'machine-checked proof (Lean 4) over a model tied by translation + correspondence'})
     else:
       na.append({'property_id': pid, 'reason': 'check not built yet (work in progress; the technique applies, see DESIGN.md §4 %s)' % pid})
-  m = {'version': 1, 'setup_cmd': 'python3 vk/translate.py /repo && cd lean && lake build DK.Props.All DK.Driver.Main && cd .. && /venv/bin/python -m vk.warmup',
+  m = {'version': 1, 'setup_cmd': '/venv/bin/python vk/translate.py /repo && cd lean && lake build DK.Props.All DK.Driver.Main && cd .. && /venv/bin/python -m vk.warmup',
        'hooks': {'guard': 'DEVICE_KIT_VERIF', 'enable': 'none needed: the harness imports /repo in-process (DK_REPO overrides the path) and stubs SciPy from outside the repository',
                  'baseline_off_cmd': 'cd /repo && /venv/bin/python -m pytest -ra -q -p no:cacheprovider --timeout=900 --continue-on-collection-errors',
                  'source_commits': [], 'add_only': True},
